@@ -536,4 +536,53 @@ theorem vmax_spec (xs : Vec) (m : Rat) (h : vmax xs = some m) : m ∈ xs ∧ ∀
       rcases hx with rfl | hx
       · exact h2
       · exact h3 x hx
+/-! ### insertion sort (`ndarray.sort()` of the selected indices) -/
+
+theorem insertSorted_perm (x : Nat) (l : List Nat) : (insertSorted x l).Perm (x :: l) := by
+  induction l with
+  | nil => exact List.Perm.refl _
+  | cons y ys ih =>
+    simp only [insertSorted]
+    split
+    · exact List.Perm.refl _
+    · exact (List.Perm.cons y ih).trans (List.Perm.swap x y ys)
+
+theorem sortNat_perm (l : List Nat) : (sortNat l).Perm l := by
+  induction l with
+  | nil => exact List.Perm.refl _
+  | cons x xs ih =>
+    simp only [sortNat, List.foldr_cons]
+    exact (insertSorted_perm x _).trans (List.Perm.cons x ih)
+
+theorem insertSorted_sorted (x : Nat) (l : List Nat) (h : l.Pairwise (· ≤ ·)) :
+    (insertSorted x l).Pairwise (· ≤ ·) := by
+  induction l with
+  | nil => simp [insertSorted]
+  | cons y ys ih =>
+    simp only [insertSorted]
+    have hy := List.pairwise_cons.mp h
+    split
+    · rename_i hxy
+      refine List.pairwise_cons.mpr ⟨?_, h⟩
+      intro z hz
+      simp only [List.mem_cons] at hz
+      rcases hz with rfl | hz
+      · exact hxy
+      · exact Nat.le_trans hxy (hy.1 z hz)
+    · rename_i hxy
+      refine List.pairwise_cons.mpr ⟨?_, ih hy.2⟩
+      intro z hz
+      have := (insertSorted_perm x ys).mem_iff.mp hz
+      simp only [List.mem_cons] at this
+      rcases this with rfl | hz'
+      · omega
+      · exact hy.1 z hz'
+
+theorem sortNat_sorted (l : List Nat) : (sortNat l).Pairwise (· ≤ ·) := by
+  induction l with
+  | nil => simp [sortNat]
+  | cons x xs ih =>
+    simp only [sortNat, List.foldr_cons]
+    exact insertSorted_sorted x _ ih
+
 end Pyunicorn.Window
